@@ -131,6 +131,20 @@ def check_props_files(relpaths, workdir, tier):
     return res
 
 
+def cover_summary(prop, drifted):
+    """which library functions (of the files this property is anchored in) the implementation runs of this check executed"""
+    anchored = set(PROP_FILES.get(prop, []))
+    allf = [k for f, lst in drift.spans().items() if f in anchored for k in ["%s::%s" % (f, n) for n, _, _ in lst]]
+    ran = {k: v for k, v in COVER.items() if k.split("::")[0] in anchored and v > 0}
+    not_run = sorted(k for k in allf if k not in ran)
+    return dict(measured=bool(COVER), functions_in_anchored_files=len(allf), functions_exercised=len(ran),
+                mean_line_fraction_of_exercised=(round(sum(ran.values()) / len(ran), 3) if ran else 0.0),
+                not_exercised=not_run[:120],
+                drifted_but_not_exercised=[k for k in drifted if k in not_run],
+                note="line coverage of the implementation during this check's correspondence runs (coverage.py, in memory); "
+                     "a function that is not exercised is not tied to the model by this check")
+
+
 def load_known():
     p = os.path.join(VERIF, "known_findings.json")
     return json.load(open(p)) if os.path.exists(p) else []
@@ -148,18 +162,38 @@ def write_replay(prop, payload):
     return path
 
 
+COVER = {}      # file::function -> best fraction of its body lines executed by the implementation runs of this check
+
+
 def run_cases(mod, descs, workdir, jobs=16):
     """Run implementation and model on every desc; returns per-case records."""
     recs = []
     t0 = time.time()
-    for d in descs:
-        rec = dict(desc=d, obs=None, fails=[], impl_error=None)
+    cov = None
+    if COVER is not None and os.environ.get("VERIF_NO_COVERAGE") != "1":
         try:
-            rec["obs"], rec["fails"] = mod.run_impl(d)
-        except Exception as e:  # the implementation raised
-            rec["impl_error"] = "%s: %s" % (type(e).__name__, str(e)[:300])
-            rec["tb"] = traceback.format_exc()[-1500:]
-        recs.append(rec)
+            import coverage
+            cov = coverage.Coverage(data_file=None, include=[os.path.join(gtlib.REPO, "gaussian_toolbox", "*")], branch=False)
+            cov.start()
+        except Exception:
+            cov = None
+    try:
+        for d in descs:
+            rec = dict(desc=d, obs=None, fails=[], impl_error=None)
+            try:
+                rec["obs"], rec["fails"] = mod.run_impl(d)
+            except Exception as e:  # the implementation raised
+                rec["impl_error"] = "%s: %s" % (type(e).__name__, str(e)[:300])
+                rec["tb"] = traceback.format_exc()[-1500:]
+            recs.append(rec)
+    finally:
+        if cov is not None:
+            cov.stop()
+            try:
+                for k, v in drift.exercised(cov).items():
+                    COVER[k] = max(COVER.get(k, 0.0), v)
+            except Exception as e:
+                COVER["<coverage analysis failed>"] = 0.0
     t_impl = time.time() - t0
     terms = []
     for rec in recs:
@@ -398,6 +432,7 @@ def main(argv=None):
             known_findings_seen=sorted(set(known_seen)),
             impl_wall_s=round(t_impl, 1), model_wall_s=round(t_coq, 1),
             explanation=getattr(mod, "EXPLANATION", ""),
+            implementation_coverage=cover_summary(prop, drifted),
             source_drift=dict(changed_functions=drifted[:40], in_anchored_files=drift_here[:40], extra_cases_from_thorough_generator=n_widened,
                               baseline=os.path.relpath(drift.BASELINE, VERIF)),
             extra=extra,
